@@ -1,0 +1,35 @@
+//go:build verif
+
+package crypto
+
+// Contracts for the verification machinery in /verif (comment-only; not compiled without the tag "verif").
+
+// Rejection sampling: the value returned is x mod n for a 32-bit draw x that was accepted, i.e. x > t with
+// t = 2^32 mod n; the accepted draws [t+1, 2^32) form a range whose length 2^32-t-1 is congruent to -1 mod n.
+//@ func randInt31
+//@   panics when n > 2147483647
+//@   ensures range: result1 == nil ==> 0 <= result0 && (n >= 1 ==> result0 < n)
+//@   ensures small: n < 2 ==> result0 == 0 && result1 == nil
+//@   ensures rejection: result1 == nil && n >= 2 ==> exists(x, 0, 4294967296, mathint(x) > floormod(4294967296-mathint(n), mathint(n)) && mathint(result0) == floormod(mathint(x), mathint(n)))
+
+//@ func randInt63
+//@   ensures range: result1 == nil ==> 0 <= result0 && (n >= 1 ==> result0 < n)
+//@   ensures small: n < 2 ==> result0 == 0 && result1 == nil
+
+//@ func RandIntn
+//@   panics when n <= 0
+//@   ensures range: result1 == nil ==> 0 <= result0 && result0 < n
+
+// Reservoir sampling. Ghost state idx[q] is the label (original index) of the item currently held at
+// position q; the callback is specified to copy the item at src to dst.
+//@ func Sample
+//@   ghostparam idx []int
+//@   panics when k < 0 || n < 0
+//@   requires len(idx) == n && forall(q, 0, n, idx[q] == q)
+//@   callback pick requires 0 <= dst && dst <= src && src < len(idx)
+//@   callback pick modifies idx[:]
+//@   callback pick ensures idx[dst] == old(idx[src]) && forall(q, 0, len(idx), q != dst ==> idx[q] == old(idx[q]))
+//@   loop 0 invariant forall(q, 0, n, idx[q] == q)
+//@   loop 1 invariant forall(a, 0, k, 0 <= idx[a] && idx[a] < i) && forall(a, 0, k, forall(b, a+1, k, idx[a] != idx[b])) && forall(q, k, n, idx[q] == q)
+//@   ensures count: result1 == nil ==> (k <= n ==> result0 == k) && (n < k ==> result0 == n)
+//@   ensures distinct: result1 == nil ==> forall(a, 0, result0, 0 <= idx[a] && idx[a] < n) && forall(a, 0, result0, forall(b, a+1, result0, idx[a] != idx[b]))
